@@ -53,16 +53,17 @@ pub fn spec(args: &[String]) -> i32 {
     let mut g = Gen::new(seed ^ 0xC02);
     let mut st = Stats::new();
     let n = if thorough { 2_000_000 } else { 80000 };
+    let mut g3 = Gen::new(seed ^ 0xC02_0970);
     for case in 0..n {
         let stream = case % 4;
         let nr = 1 + g.rng.below(3);
-        let rules: Vec<String> = (0..nr).map(|_| match stream {
+        let mut rules: Vec<String> = (0..nr).map(|_| match stream {
             0 => { let p = if g.rng.chance(1, 2) { Profile::Full } else { Profile::Tame }; g.rule(p) }
             1 => { let r = g.rule(Profile::Full); mutate(&mut g, &r) }
             3 => g.edge_rule(),
             _ => { let k = 1 + g.rng.below(12); noise(&mut g, k) }
         }).collect();
-        let words: Vec<String> = (0..1 + g.rng.below(3)).map(|_| if stream == 3 { let mut t = g.small_word(); if g.rng.chance(1, 2) { t = format!("{t}.{}", g.small_word()); } if g.rng.chance(1, 3) { t = format!("{t}.{}", ["a", "i", "ta", "n"][g.rng.below(4)]); } t } else { match g.rng.below(10) { 0 => { let k = g.rng.below(8); noise(&mut g, k) }, 1 => { let w = g.word(); mutate(&mut g, &w) }, 2 => g.small_word(), _ => g.word() } }).collect();
+        let mut words: Vec<String> = (0..1 + g.rng.below(3)).map(|_| if stream == 3 { let mut t = g.small_word(); if g.rng.chance(1, 2) { t = format!("{t}.{}", g.small_word()); } if g.rng.chance(1, 3) { t = format!("{t}.{}", ["a", "i", "ta", "n"][g.rng.below(4)]); } t } else { match g.rng.below(10) { 0 => { let k = g.rng.below(8); noise(&mut g, k) }, 1 => { let w = g.word(); mutate(&mut g, &w) }, 2 => g.small_word(), _ => g.word() } }).collect();
         let into: Vec<String> = if g.rng.chance(1, 8) { vec![if g.rng.chance(1, 3) { let k = g.rng.below(8); noise(&mut g, k) } else { alias_line(&mut g, true) }] } else { vec![] };
         let mut from: Vec<String> = if g.rng.chance(1, 8) { vec![if g.rng.chance(1, 3) { let k = g.rng.below(8); noise(&mut g, k) } else { alias_line(&mut g, false) }] } else { vec![] };
         // edge-rule cases on small words: every fourth one prints through a romaniser with several input elements over the same
@@ -71,6 +72,18 @@ pub fn spec(args: &[String]) -> i32 {
             let inv = ["a", "i", "u", "p", "t", "k", "s", "n"];
             let a = inv[g.rng.below(8)]; let b = ["C", "V", "[+cons]", "[-syll]", "N", "C:[+voice]", "[+syll]"][g.rng.below(7)];
             from = vec![match g.rng.below(3) { 0 => format!("{a}{b} > x"), 1 => format!("{b}{a}{b} > x"), _ => format!("{a}{}{b} > +y", inv[g.rng.below(8)]) }];
+        }
+        // stacked unbounded optionals over a long run of distinct segments, then something that matches nowhere: the work must stay
+        // proportional to the word (own generator, so that the other streams stay as they were)
+        if stream == 3 && case % 16 == 7 {
+            let k = 3 + g3.rng.below(8);
+            let opt = ["(C,0)", "([],0)", "(C,1:0)", "({p,t},0)"][g3.rng.below(4)];
+            let env = format!("{}{}", vec![opt; k].join(" "), [" x", " #x", " q #"][g3.rng.below(3)]);
+            rules = vec![if g3.rng.chance(1, 2) { format!("a > e / _ {env}") } else { format!("a > e / {} _", env.split(' ').rev().collect::<Vec<_>>().join(" ")) }];
+            let n = 8 + g3.rng.below(14);
+            let run: String = (0..n).map(|i| ["p", "t", "k", "s"][(i + g3.rng.below(2)) % 4]).collect::<Vec<_>>().join("");
+            words = vec![if rules[0].ends_with('_') { format!("{run}a") } else { format!("a{run}") }];
+            st.inc("c02.stacked_optionals");
         }
         let groups = [RuleGroup::from("g", rules.clone(), "")];
         st.inc("c02.cases"); st.inc(&format!("c02.stream{stream}"));
@@ -120,7 +133,11 @@ pub fn spec(args: &[String]) -> i32 {
             let rtype = if rule_for_label.replace(' ', "").contains("(,") { "empty-optional" } else if rule_for_label.replace(' ', "").contains("($,0)") { "boundary-only-unbounded-optional" } else if head.starts_with('*') || head.starts_with('∅') || has_empty_input_term { "insertion" } else if inp_has_bound && !rule_for_label.contains('&') && !rule_for_label.contains("> *") && !rule_for_label.contains("> ∅") { "substitution-with-boundary-input" } else if rule_for_label.contains('&') { "metathesis" } else if rule_for_label.contains("> *") || rule_for_label.contains("> ∅") { if inp_has_bound { "deletion-with-boundary-input" } else { "deletion" } } else { "substitution" };
             let kind = if let Some(p) = what.strip_prefix("panic ") {
                 let (msg, loc) = match p.rsplit_once(" @ ") { Some((m, l)) => (m, l), None => (p, "?") };
-                let mc = if msg.contains("PosOverflow") { "number-too-large" } else if msg.contains("index out of bounds") || msg.contains("out of range") { "index-out-of-bounds" } else if msg.contains("None") { "unwrap-none" } else if msg.contains("capacity overflow") || msg.contains("subtract with overflow") { "arithmetic" } else if msg.contains("not implemented") || msg.contains("unreachable") { "unimplemented-or-unreachable" } else if msg.contains("Out of bounds access") { "segment-out-of-bounds" } else { "other" };
+                let one_past = { // "the len is N but the index is N": an index running exactly one past the end of what it indexes
+                    let nums: Vec<&str> = msg.split(|c: char| !c.is_ascii_digit()).filter(|t| !t.is_empty()).collect();
+                    msg.contains("index out of bounds: the len is") && nums.len() == 2 && nums[0] == nums[1] };
+                let mc = if msg.contains("PosOverflow") { "number-too-large" } else if one_past && (rule_for_label.contains('…') || rule_for_label.contains("..") || rule_for_label.contains('⋯')) { "index-one-past-end" }
+                    else if msg.contains("index out of bounds") || msg.contains("out of range") { "index-out-of-bounds" } else if msg.contains("None") { "unwrap-none" } else if msg.contains("capacity overflow") || msg.contains("subtract with overflow") { "arithmetic" } else if msg.contains("not implemented") || msg.contains("unreachable") { "unimplemented-or-unreachable" } else if msg.contains("Out of bounds access") { "segment-out-of-bounds" } else { "other" };
                 // the shape of the failing rule is part of the identity of a finding: the same function can fail for unrelated reasons
                 let inp = rule_for_label.split(|c| c == '>' || c == '→').next().unwrap_or("");
                 let out_part = rule_for_label.split(|c| c == '>' || c == '→').nth(1).unwrap_or("").split(|c| c == '/' || c == '|').next().unwrap_or("").to_string();
